@@ -1,17 +1,17 @@
 #!/bin/bash
-# seeded_eval.sh <patch.diff> <PROP> [tier]  - apply a seeded change to /repo, run the owning check, undo.
-# Prints the check's VIOLATION / KNOWN-FINDING lines and exit status. Never leaves /repo modified.
+# seeded_eval.sh <patch.diff> <PROP> [tier]  - run the owning check against a scratch worktree of /repo with
+# the seeded change applied (VERIF_REPO), so that /repo itself is never modified and other runs are not disturbed.
 set -u
-PATCH=$1; PROP=$2; TIER=${3:-quick}
-cd /repo || exit 2
-if [ -n "$(git status --porcelain)" ]; then echo "/repo is not clean"; exit 2; fi
-git apply "$PATCH" || { echo "patch does not apply"; exit 2; }
+PATCH=$(readlink -f "$1"); PROP=$2; TIER=${3:-quick}
+WT=$(mktemp -d /tmp/verif-seeded-XXXXXX); rmdir "$WT"
+git -C /repo worktree add --detach "$WT" HEAD -q || exit 2
+git -C "$WT" apply "$PATCH" || { echo "patch does not apply"; git -C /repo worktree remove --force "$WT"; exit 2; }
 cd /verif
 START=$(date +%s)
-VERIF_EVIDENCE_DIR=/verif/out/mutant-evidence ./check "$PROP" "$TIER" > /tmp/seeded_eval.$$.log 2>&1
+VERIF_REPO="$WT" VERIF_EVIDENCE_DIR=/verif/out/mutant-evidence ./check "$PROP" "$TIER" > /tmp/seeded_eval.$$.log 2>&1
 RC=$?
 END=$(date +%s)
-cd /repo && git apply -R "$PATCH"; git checkout -- . ; git status --porcelain
+git -C /repo worktree remove --force "$WT"; git -C /repo worktree prune
 grep -E "^(VIOLATION|KNOWN-FINDING)|HARNESS ERROR|^\[verif\]   " /tmp/seeded_eval.$$.log | cut -c1-400
 echo "check=$PROP tier=$TIER rc=$RC wall=$((END-START))s"
 rm -f /tmp/seeded_eval.$$.log
